@@ -24,6 +24,9 @@ func VerifCollect(files []*ast.File, info *types.Info, ssaOf func(*types.Func) *
 				m[funcObj] = parsed
 				continue
 			}
+			if hasNilabilityAnnotation(funcDecl.Doc) {
+				continue
+			}
 			sig := funcObj.Type().(*types.Signature)
 			if funcDecl.Type.Params.NumFields() != 1 || funcDecl.Type.Results.NumFields() != 1 ||
 				typeshelper.TypeBarsNilness(sig.Params().At(0).Type()) || typeshelper.TypeBarsNilness(sig.Results().At(0).Type()) || sig.Variadic() {
